@@ -174,7 +174,10 @@ def _run_session(data, case, faults, src_fault):
         [x for x in sizes if x > 0]
     cls = ReadintoSource if (pers == 'file' and case.get('readinto')) \
         else SimSource
-    src = cls(data, plan, fault=src_fault)
+    if case.get('no_close'):
+        # a source without a close attribute at all
+        cls = type('NoClose' + cls.__name__, (cls,), {'close': property()})
+    src = cls(data, plan, fault=src_fault, kind=case.get('chunk_kind'))
     allowed = case.get('allowed')
     allowed_obj = list(allowed) if allowed is not None else None
     pre = case.get('presession')
@@ -218,6 +221,16 @@ def _run_session(data, case, faults, src_fault):
                     req = req * 2 + 3
                 if op < len(plan) and plan[op] == 0:
                     req = 0
+                if case.get('final_read') and op == len(plan) - 1 and \
+                        plan[op] > 0:
+                    # "give me the rest": read(-1) / read(None)
+                    req = plan[op]
+                    src.current_req = None
+                    chunk = w.read(-1 if case['final_read'] == 'minus1'
+                                   else None)
+                    hist.got.append(chunk)
+                    op += 1
+                    continue
                 if op < len(plan) and req > plan[op]:
                     hist.short_reads += 1
                 src.current_req = req
@@ -526,6 +539,12 @@ class C06(Check):
                 'debuglog': crng.random() < 0.3, 'read0': pers == 'file',
                 'drain': crng.choice((0, 0, 1, 3)),
                 'readinto': crng.random() < 0.5,
+                'chunk_kind': core.weighted(crng, [(None, 6), ('bytearray', 1),
+                                                   ('memoryview', 1)]),
+                'no_close': crng.random() < 0.1,
+                'final_read': core.weighted(crng, [(None, 8), ('minus1', 1),
+                                                   ('none', 1)])
+                if pers == 'file' else None,
                 'expected': expected, 'allowed': allowed, 'order': order,
                 'sweep': sweep, 'faults': [], 'src_fault': None}
         prng = st('presession')
@@ -654,7 +673,8 @@ class C06(Check):
         log.add('session', [(f['insp'], f['at'], f['phase']) for f in faults],
                 src_fault, case.get('ask'), bool(case.get('debuglog')),
                 case.get('drain'), bool(case.get('readinto')),
-                bool(case.get('presession')),
+                bool(case.get('presession')), case.get('chunk_kind'),
+                bool(case.get('no_close')), case.get('final_read'),
                 len(hist.got), src.reads,
                 None if hist.surfaced is None else
                 (hist.surfaced[0], type(hist.surfaced[1]).__name__),
@@ -709,7 +729,8 @@ class C06(Check):
             c = copy.deepcopy(case)
             c['drain'] = 0
             yield c
-        for key in ('presession', 'readinto'):
+        for key in ('presession', 'readinto', 'chunk_kind', 'no_close',
+                    'final_read'):
             if case.get(key):
                 c = copy.deepcopy(case)
                 c[key] = None
